@@ -359,3 +359,89 @@ Proof.
   intros Hn He. induction 1 as [v Hv|v w x C IH Hx Ha]; [constructor; auto|].
   eapply conn_step; eauto.
 Qed.
+
+(* ------------------------------------------------------------------------------------ *)
+(* Re-presentation: relabelling of node ids, permutation of rows *)
+Definition map_edges (f : Z -> Z) (E : list (Z * Z)) : list (Z * Z) :=
+  map (fun e => (f (fst e), f (snd e))) E.
+
+Lemma map_edges_in f E a b : In (a, b) E -> In (f a, f b) (map_edges f E).
+Proof. intros H. unfold map_edges. apply in_map_iff. exists (a, b). auto. Qed.
+
+Lemma adj_map f E a b : adj E a b -> adj (map_edges f E) (f a) (f b).
+Proof. intros [H|H]; [left|right]; now apply map_edges_in. Qed.
+
+Lemma adj_map_inv f E a b :
+  (forall x y, f x = f y -> x = y) -> adj (map_edges f E) (f a) (f b) -> adj E a b.
+Proof.
+  intros Inj [H|H]; unfold map_edges in H; apply in_map_iff in H; destruct H as [[x y] [Eq Hin]];
+    cbn in Eq; injection Eq as E1 E2; apply Inj in E1; apply Inj in E2; subst; [left|right]; exact Hin.
+Qed.
+
+(* any relabelling maps paths to paths *)
+Lemma conn_map f nodes E v w :
+  conn nodes E v w -> conn (map f nodes) (map_edges f E) (f v) (f w).
+Proof.
+  induction 1 as [v Hv|v w x C IH Hx Ha]; [constructor; now apply in_map|].
+  eapply conn_step; [exact IH|now apply in_map|now apply adj_map].
+Qed.
+
+(* an injective relabelling creates no new paths *)
+Lemma conn_map_inv f nodes E v' w' :
+  (forall x y, f x = f y -> x = y) ->
+  conn (map f nodes) (map_edges f E) v' w' ->
+  forall v, v' = f v -> exists w, w' = f w /\ conn nodes E v w.
+Proof.
+  intros Inj. induction 1 as [v' Hv'|v' w' x' C IH Hx Ha]; intros v Ev.
+  - exists v. split; [exact Ev|]. constructor. subst v'. apply in_map_iff in Hv'.
+    destruct Hv' as [u [Eu Hu]]. apply Inj in Eu. now subst.
+  - destruct (IH v Ev) as [w [Ew Cw]]. apply in_map_iff in Hx. destruct Hx as [x [Ex Hx]]. subst x' w'.
+    exists x. split; [reflexivity|]. eapply conn_step; [exact Cw|exact Hx|]. eapply adj_map_inv; eauto.
+Qed.
+
+Lemma conn_map_iff f nodes E v w :
+  (forall x y, f x = f y -> x = y) ->
+  (conn (map f nodes) (map_edges f E) (f v) (f w) <-> conn nodes E v w).
+Proof.
+  intros Inj. split; [|apply conn_map]. intros C.
+  destruct (conn_map_inv f nodes E _ _ Inj C v eq_refl) as [w0 [Ew Cw]]. apply Inj in Ew. now subst.
+Qed.
+
+(* the partition (same-component relation) is invariant under every injective relabelling *)
+Theorem comp_min_relabel_partition f nodes E v w :
+  (forall x y, f x = f y -> x = y) -> In v nodes -> In w nodes ->
+  (comp_min (map f nodes) (map_edges f E) (f v) = comp_min (map f nodes) (map_edges f E) (f w) <->
+   comp_min nodes E v = comp_min nodes E w).
+Proof.
+  intros Inj Hv Hw. rewrite !comp_min_eq_iff_conn by (auto using in_map). now apply conn_map_iff.
+Qed.
+
+(* a strictly order-preserving relabelling maps component minima to component minima *)
+Theorem comp_min_relabel_monotone f nodes E v :
+  (forall x y, x < y -> f x < f y) -> In v nodes ->
+  comp_min (map f nodes) (map_edges f E) (f v) = f (comp_min nodes E v).
+Proof.
+  intros Mono Hv.
+  assert (Inj : forall x y, f x = f y -> x = y).
+  { intros x y Exy. destruct (Z.lt_trichotomy x y) as [H|[H|H]]; [apply Mono in H; lia|exact H|apply Mono in H; lia]. }
+  assert (MonoLe : forall x y, x <= y -> f x <= f y).
+  { intros x y H. destruct (Z.eq_dec x y) as [->|Hne]; [lia|]. assert (x < y) by lia. apply Mono in H0. lia. }
+  symmetry. apply comp_min_unique; [now apply in_map|].
+  destruct (comp_min_spec nodes E v Hv) as [C L]. split.
+  - now apply conn_map.
+  - intros w' Cw. destruct (conn_map_inv f nodes E _ _ Inj Cw v eq_refl) as [w [-> Cvw]].
+    apply MonoLe. now apply L.
+Qed.
+
+(* the order of the rows of the node table and of the edge table is irrelevant *)
+Theorem comp_min_rows_irrelevant nodes nodes2 E E2 v :
+  (forall x, In x nodes <-> In x nodes2) -> (forall e, In e E <-> In e E2) -> In v nodes ->
+  comp_min nodes E v = comp_min nodes2 E2 v.
+Proof.
+  intros Hn He Hv. apply comp_min_unique; [now apply Hn|].
+  assert (A12 : forall a b, adj E a b -> adj E2 a b) by (intros a b [H|H]; [left|right]; now apply He).
+  assert (A21 : forall a b, adj E2 a b -> adj E a b) by (intros a b [H|H]; [left|right]; now apply He).
+  destruct (comp_min_spec nodes E v Hv) as [C L]. split.
+  - eapply conn_mono_nodes; [| |exact C]; [intros; now apply Hn|exact A12].
+  - intros w Cw. apply L. eapply conn_mono_nodes; [| |exact Cw]; [intros; now apply Hn|exact A21].
+Qed.
